@@ -11,6 +11,12 @@ ENGINES = [
 NOT_YET = {}
 TB = "Trusted: Lean kernel; axioms ⊆ {propext, Quot.sound, Classical.choice}; the translator; the harness + canonicalisation; "
 META = {
+    "C07": {
+        "text": "Theorems over every N, every answer script (including non-fused sources), every size hint: ok_iff (try_from_iter returns Ok arr iff the hint does not exclude N, the first N answers are Some and equal arr, and answer N is not Some), truthful_complete, polls_le (at most N+1 polls on every path, panics included), pulled_ledger (every pulled item in the result or dropped exactly once), boxed_agrees (the boxed form is the same function of the script), from_iter_panics_iff. The size-hint guards, is_full, the short-circuit order, destination-first zip and finish-after-probe are regenerated from lib.rs/internal.rs/impl_alloc.rs. Correspondence: scripted Iterator with recorded polls on the real crate.",
+        "design_ref": "§5 C07",
+        "note": TB + "modelled not verified: core's Zip/Take and alloc's Vec for the boxed form.",
+        "technique": "Lean 4 induction over the source script on regenerated guards + scripted-iterator correspondence",
+    },
     "C04": {
         "text": "Ledger theorems quantified over the caller-code function f : call index -> (value | panic), hence over every panic index at once: generate/Default, map (4 receiver forms), zip (16 form pairs, drop-tracked elements), fold (4 forms), Clone, try_from_iter/from_iter (stack and boxed, any size hint, non-fused or panicking sources). One generic theorem (fillLoop_ledger / tryFromIter_ledger, induction on the number of destination slots) over any source meeting a one-step ownership contract; each concrete closure loop is shown to meet it, given the statement-order and stored-position fragments regenerated from the source (position stored before the call, value = pos + 1, destination zipped first, finish() after the surplus probe). Correspondence: event ledger of the real crate with an injected panic at every call index, all forms, N in {0..8,16,17,33}; independent exactly-once oracle.",
         "design_ref": "§5 C04",
